@@ -165,6 +165,7 @@ class CallMixin:
     # ------------------------------------------------------------------ closures
     def make_closure(self, node, name):
         c = Closure(node, name, None, self)
+        c.captured = {n: self.state.env[n] for n in c.free if n in self.state.env}
         cid = f'{name}@{node.lineno}:{node.col_offset}'
         self.closures[cid] = c
         return AV(['func'], fn=[('closure', cid)])
@@ -179,7 +180,7 @@ class CallMixin:
             return out
         seen.add(key)
         for n in c.free:
-            v = self.state.env.get(n)
+            v = self.state.env.get(n, getattr(c, 'captured', {}).get(n))
             if v is not None:
                 out |= self.deep_orgs(v, seen)
         return out
@@ -191,6 +192,8 @@ class CallMixin:
         c.busy = True
         saved_env = self.state.env
         env = dict(saved_env)
+        for n, v in getattr(c, 'captured', {}).items():
+            env.setdefault(n, v)             # variables of an enclosing activation that has already returned
         for i, p in enumerate(c.params):
             if i < len(args):
                 env[p] = args[i]
@@ -732,6 +735,8 @@ class CallMixin:
             return a.but(org={m.get(o, o) for o in a.org}, gen={'attr' if g == 'param' else g for g in a.gen},
                          items=[fix(i) for i in a.items] if a.items is not None else None, elem=fix(a.elem),
                          fn=[t for t in a.fn if t[0] != 'cb'])
+        if not type(self)._has_any(parse_spec(spec)):
+            self.typed_origins |= {'S:' + attr, 'S:' + attr + '[]'}
         for site, hv in tmp.items():
             s2 = m.get(site, site)
             if s2 not in self.state.heap:
@@ -760,6 +765,7 @@ class CallMixin:
             self.event('unknown', None, None, node,
                        f'{src(node, 60)}: value of kinds {sorted(v.kinds)} does not fit the declared attribute type '
                        f'{spec!r} of self.{attr}', soft=True)
+            self.events[-1].how = 'type'
         if 'gen' in want and v.may('gen'):
             bad = set(v.gen) - GEN_OK
             for b in bad:
